@@ -1,7 +1,9 @@
 package extract
 
 import (
+	"bytes"
 	"fmt"
+	"os"
 	"path"
 	"strings"
 
@@ -152,13 +154,61 @@ func drawDir(rt *rapid.T, label string, nixOK bool) string {
 }
 
 // genOp draws one corruption operator for a content of about size bytes.
-func genOp(rt *rapid.T, size int, label string) Op {
-	kind := oneOf(rt, []string{"trunc", "bitflip", "bitflip", "subst", "subst", "zero", "dup", "swap", "garbage", "empty"}, label+".kind")
+var (
+	binKinds  = []string{"trunc", "bitflip", "bitflip", "subst", "subst", "zero", "dup", "swap", "garbage", "empty", "setu32", "setu32", "setu32", "nul"}
+	textKinds = []string{"trunc", "bitflip", "subst", "subst", "zero", "dup", "swap", "garbage", "empty", "cutquote", "delclose", "emptyval", "emptyval",
+		"longtok", "dupline", "delline", "nul", "crlf", "nullval", "nullval", "nullval", "strval", "strval"}
+)
+
+// isBinary: the content looks like a binary format (NUL among the first bytes, or a known magic).
+func isBinary(b []byte) bool {
+	h := b
+	if len(h) > 512 {
+		h = h[:512]
+	}
+	return bytes.IndexByte(h, 0) >= 0 || bytes.HasPrefix(h, []byte("PK")) || bytes.HasPrefix(h, []byte("MZ")) || bytes.HasPrefix(h, []byte("\x7fELF"))
+}
+
+// genOp draws one corruption operator; the operator mix depends on whether the content is a
+// binary or a text format (quote/bracket/delimiter/line-aware and JSON-structural operators).
+func genOp(rt *rapid.T, size int, bin bool, label string) Op {
+	kinds := textKinds
+	if bin {
+		kinds = binKinds
+	}
+	kind := oneOf(rt, kinds, label+".kind")
 	o := Op{Kind: kind}
+	switch kind {
+	case "nullval", "strval":
+		o.Off = rapid.IntRange(0, 300).Draw(rt, label+".node")
+		if chance(rt, 50, label+".uni") {
+			o.Off = pick(rt, 3000, label+".nodeu")
+		}
+		o.Val = pick(rt, 64, label+".val")
+		return o
+	case "cutquote", "delclose", "emptyval", "longtok", "dupline", "delline":
+		// Off = which occurrence (reduced modulo their number when applied)
+		o.Off = rapid.IntRange(0, 400).Draw(rt, label+".nth")
+		if chance(rt, 50, label+".uni") {
+			o.Off = pick(rt, 4000, label+".nthu")
+		}
+		o.Val = rapid.IntRange(0, 5).Draw(rt, label+".val")
+		if kind == "longtok" {
+			o.Len = oneOf(rt, []int{64, 1024, 4096, 65536, 70000, 1 << 20}, label+".len")
+		}
+		return o
+	case "crlf":
+		return o
+	}
 	if size < 1 {
 		size = 1
 	}
-	switch pick(rt, 3, label+".where") {
+	switch pick(rt, 4, label+".where") {
+	case 3: // binary headers beyond the first bytes (PE optional header / section table, ELF, zip local headers)
+		o.Off = rapid.IntRange(0x3c, 0x400).Draw(rt, label+".off")
+		if kind == "setu32" && chance(rt, 60, label+".anyfield") {
+			o.Off = pick(rt, size+1, label+".off4") // any 32-bit field (metadata row counts, directory sizes, ...)
+		}
 	case 0: // header
 		o.Off = rapid.IntRange(0, 63).Draw(rt, label+".off")
 	case 1: // trailer (zip central directory, closing brackets, ...)
@@ -174,6 +224,10 @@ func genOp(rt *rapid.T, size int, label string) Op {
 		o.Val = oneOf(rt, []int{0, 0xff, '\n', '"', '{', '[', '<', ' ', '\\', 0x80, '-', ':', '0', '9', 'A'}, label+".byte")
 	case "zero", "dup", "swap":
 		o.Len = oneOf(rt, []int{1, 2, 4, 8, 16, 64, 512, 4096}, label+".len")
+	case "setu32":
+		o.Val = rapid.IntRange(0, 7).Draw(rt, label+".u32")
+	case "nul":
+		o.Len = oneOf(rt, []int{1, 2, 16, 4096}, label+".len")
 	case "garbage":
 		o.Len = oneOf(rt, []int{1, 4, 16, 64, 1024, 70000}, label+".len")
 		o.Val = rapid.IntRange(0, 255).Draw(rt, label+".seed")
@@ -181,11 +235,12 @@ func genOp(rt *rapid.T, size int, label string) Op {
 	return o
 }
 
-func genOps(rt *rapid.T, size int, label string) []Op {
+func genOps(rt *rapid.T, content []byte, label string) []Op {
 	n := rapid.IntRange(1, 4).Draw(rt, label+".n")
+	bin := isBinary(content)
 	var ops []Op
 	for i := 0; i < n; i++ {
-		ops = append(ops, genOp(rt, size, fmt.Sprintf("%s.%d", label, i)))
+		ops = append(ops, genOp(rt, len(content), bin, fmt.Sprintf("%s.%d", label, i)))
 	}
 	return ops
 }
@@ -218,6 +273,14 @@ func homeTmpl(rt *rapid.T, t *table, fi int, label string) string {
 
 const osRelease = "NAME=\"Debian GNU/Linux\"\nID=debian\nVERSION_ID=\"12\"\nVERSION_CODENAME=bookworm\n"
 
+var osReleaseVariants = []string{
+	osRelease,
+	"PRETTY_NAME=\"Ubuntu 22.04.4 LTS\"\nNAME=\"Ubuntu\"\nVERSION_ID=\"22.04\"\nVERSION=\"22.04.4 LTS (Jammy Jellyfish)\"\nVERSION_CODENAME=jammy\nID=ubuntu\nID_LIKE=debian\nHOME_URL=\"https://www.ubuntu.com/\"\n",
+	"NAME=\"Alpine Linux\"\nID=alpine\nVERSION_ID=3.19.1\nPRETTY_NAME=\"Alpine Linux v3.19\"\n",
+	"NAME='Fedora Linux'\nVERSION='39 (Container Image)'\nID=fedora\nVERSION_ID=39\nBUILD_ID=\"20240101\"\n# a comment\n\nVARIANT_ID=container\n",
+	"ID=cos\nBUILD_ID=17800.147.22\nVERSION_ID=109\nNAME=\"Container-Optimized OS\"\n",
+}
+
 // genEnv draws the capability part of a scenario.
 func genEnv(rt *rapid.T, realShare int) (osName string, running bool, mode string) {
 	osName = oneOf(rt, []string{"linux", "linux", "linux", "linux", "linux", "linux", "windows", "windows", "mac", "mac"}, "os")
@@ -225,6 +288,21 @@ func genEnv(rt *rapid.T, realShare int) (osName string, running bool, mode strin
 	mode = "sim"
 	if chance(rt, realShare, "mode") {
 		mode = "real"
+	}
+	if info := theTable().Ext[os.Getenv("VERIF_X_ONLY")]; info != nil {
+		// targeted run: capabilities under which that extractor is enabled
+		running = running || info.Req.RunningSystem
+		switch info.Req.OS {
+		case plugin.OSWindows:
+			osName = "windows"
+		case plugin.OSMac:
+			osName = "mac"
+		case plugin.OSLinux:
+			osName = "linux"
+		}
+		if info.Req.DirectFS {
+			mode = "real"
+		}
 	}
 	return
 }
